@@ -153,6 +153,12 @@ def core_scenarios():
     S.append(("batch_flush_fail", "strict", "A:t:100 F:FSYNC:1 EB:t:10,20 A:t:50 R:t R:t O R:t"))
     S.append(("batch_flush_fail_restart", "strict", "A:t:100 F:FSYNC:1 EB:t:10,20 O R:t R:t"))
     S.append(("stateless_alo_cursor", "alo3", "A:t:300 A:t:300 A:t:300 A:t:300 A:t:300 A:t:300 R:t S:t:1048576:1:0 P:t R:t"))
+    # clean/dirty markers across immediate and delayed clean restarts (C17)
+    S.append(("clean_immediate_reopen", "strict", "A:t:10 OI P:t C:t OI P:t D:t OI P:t"))
+    S.append(("clean_mark_sequence", "strict", "A:a:10 A:b:10 C:a OI C:b D:a OI A:b:5 C:a OI OI"))
+    S.append(("clean_delayed_reopen", "strict", "A:t:10 C:t O A:t:10 O C:t D:t C:t O"))
+    for k in range(6):
+        S.append(("clean_flip_%d" % k, "strict", " ".join(["A:t:10", "C:t"] * (k + 1)) + " OI " + " ".join(["D:t", "C:t"] * k) + " D:t OI"))
     for n in (3, 5):
         S.append(("alo%d_tail_restart" % n, "alo%d" % n, "%s %s O R:t" % (small(20), " ".join(["R:t"] * 12))))
         S.append(("alo%d_sealed_restart" % n, "alo%d" % n, "%s %s O R:t" % (big, " ".join(["R:t"] * 7))))
@@ -168,7 +174,7 @@ def family_core(prop, fail, unit_res, repo, verif, build):
     return _core_replay("walrus-replay", args, repo, verif, build)
 
 
-for _p in ("C01", "C02", "C03", "C04", "C07", "C09", "C10", "C15", "C16", "C06"):
+for _p in ("C01", "C02", "C03", "C04", "C07", "C09", "C10", "C15", "C16", "C06", "C17"):
     FAMILIES[_p] = family_core
 
 
